@@ -82,12 +82,15 @@ pub uninterp spec fn last_index_of(s: Seq<char>, c: char) -> Option<usize>;
 pub uninterp spec fn byte_len(s: Seq<char>) -> usize;
 pub uninterp spec fn prefix_to(s: Seq<char>, end: usize) -> Seq<char>;
 pub uninterp spec fn trim_end_of(s: Seq<char>) -> Seq<char>;
+pub uninterp spec fn trim_start_of(s: Seq<char>) -> Seq<char>;
 pub uninterp spec fn lower_of(s: Seq<char>) -> Seq<char>;
 pub trait StrFns {
     fn find_char(&self, c: char) -> Option<usize>;
     fn rfind_char(&self, c: char) -> Option<usize>;
     fn blen(&self) -> usize;
     fn trim_end_(&self) -> &str;
+    fn trim_start_(&self) -> &str;
+    fn trim_(&self) -> &str;
     fn to_lowercase_(&self) -> String;
 }
 impl StrFns for str {
@@ -95,6 +98,8 @@ impl StrFns for str {
     #[verifier::external_body] fn rfind_char(&self, c: char) -> (r: Option<usize>) ensures r == last_index_of(self@, c) { unimplemented!() }
     #[verifier::external_body] fn blen(&self) -> (r: usize) ensures r == byte_len(self@) { unimplemented!() }
     #[verifier::external_body] fn trim_end_(&self) -> (r: &str) ensures r@ == trim_end_of(self@) { unimplemented!() }
+    #[verifier::external_body] fn trim_start_(&self) -> (r: &str) ensures r@ == trim_start_of(self@) { unimplemented!() }
+    #[verifier::external_body] fn trim_(&self) -> (r: &str) ensures r@ == trim_start_of(trim_end_of(self@)) { unimplemented!() }
     #[verifier::external_body] fn to_lowercase_(&self) -> (r: String) ensures r@ == lower_of(self@) { unimplemented!() }
 }
 /// `&s[..end]`
